@@ -491,6 +491,19 @@ class IMAPClient:
 
     ####################################################################
     #
+    async def _discard(self, num_octets: int) -> None:
+        """
+        Read `num_octets` from the IMAP client and throw them away (in
+        pieces, it may be a lot.)
+        """
+        while num_octets > 0:
+            chunk = await self.reader.readexactly(
+                min(num_octets, self.stream_buffer_size)
+            )
+            num_octets -= len(chunk)
+
+    ####################################################################
+    #
     async def start(self) -> None:
         """
         Entry point for the asyncio task for handling the network
@@ -509,12 +522,34 @@ class IMAPClient:
             self.ibuffer = []
             self.ibuffer_size = 0
             client_connected = True
+            discarding = False
             while client_connected:
                 # Read until b'\r\n'. Trim off the '\r\n'. If the message is
                 # not of 0 length then append it to our incremental buffer.
                 #
                 msg = await self.reader.readuntil(self.LINE_TERMINATOR)
-                msg = msg.rstrip()
+                msg = msg[: -len(self.LINE_TERMINATOR)]
+
+                # If we have refused this command (it is too big) the rest of
+                # it still arrives. Read it, do not keep it. This keeps us in
+                # step with the client: what it sent as part of the refused
+                # command must not be taken for new commands.
+                #
+                if discarding:
+                    m = RE_LITERAL_STRING_START.search(msg)
+                    if m and m.group(2):
+                        # A non-synchronizing literal: the client sends it
+                        # without waiting for us.
+                        #
+                        await self._discard(int(m.group(1)))
+                        continue
+                    # Either the end of the refused command, or it goes on
+                    # with a synchronizing literal which the client only sends
+                    # once we ask for it, which we do not.
+                    #
+                    discarding = False
+                    continue
+
                 if msg:
                     self.ibuffer.append(msg)
                     self.ibuffer_size += len(msg)
@@ -552,10 +587,16 @@ class IMAPClient:
                         )
                         self.ibuffer = []
                         self.ibuffer_size = 0
-                        # Drain the line terminator that follows the
-                        # literal declaration so we stay in sync.
+
+                        # A client using a synchronizing literal waits for
+                        # our go-ahead, which it does not get: the command
+                        # ends here. With a non-synchronizing literal the
+                        # octets (and the rest of the command) are already on
+                        # their way: read and drop them so we stay in sync.
                         #
-                        await self.reader.readuntil(self.LINE_TERMINATOR)
+                        if m.group(2):
+                            await self._discard(literal_str_length)
+                            discarding = True
                         continue
 
                     # If this is a synchronizing string literal (does not have
@@ -594,6 +635,10 @@ class IMAPClient:
                         )
                         self.ibuffer = []
                         self.ibuffer_size = 0
+
+                        # The rest of this command is still to come.
+                        #
+                        discarding = True
                         continue
 
                     # Loop back to read what is either a b'\r\n' or maybe
@@ -1037,10 +1082,15 @@ class IMAPSubprocessInterface:
         client.
         """
         try:
+            # NOTE: What the subprocess sends is passed on as it comes. It is
+            #       not read line by line: a response can contain a literal
+            #       with more data before the next CRLF than the stream
+            #       reader's limit (a message with a very long line.)
+            #
             while True:
-                if self.reader.at_eof():
+                msg = await self.reader.read(self.imap_client.stream_buffer_size)
+                if not msg:
                     break
-                msg = await self.reader.readuntil(b"\r\n")
                 await self.imap_client.push(msg)
         except (OSError, asyncio.IncompleteReadError, ConnectionResetError):
             pass
